@@ -55,7 +55,7 @@
 From Coq Require Import List NArith Bool.
 From V.gen Require Consts.
 From V.common Require Import Wire.
-From V.C16 Require Import Model Compose Exec.
+From V.C16 Require Import Model Compose Exec HandleModel.
 Import ListNotations.
 Open Scope N_scope.
 
@@ -435,7 +435,7 @@ Definition world0 (k : case) : world :=
   let wc := wcfg_of k in
   fold_left (fun w p => fst (fst (cstep wc w (UAddKnownPeer p true)))) (k_known k) (w0 wc (k_mgr k) 256).
 
-Definition run_case (l : list N) : list N :=
+Definition run_case1 (l : list N) : list N :=
   match decode_case l with
   | Some k =>
       if negb (match k_keys k with [] => true | _ => false end)
@@ -774,7 +774,214 @@ Definition named (us : list uev) (grs : list group) : bool :=
                     | _ => true
                     end) us.
 
-Definition prop_ok (c t : list N) : bool :=
+(* ================================================================================================
+   Fourth stream (cases starting with HANDLE_TAG): the KademliaHandle in front of the loop.
+   case  = HANDLE_TAG ccap l0..l31 nops op*      (ccap: slots of the command channel; l: key of the local peer)
+   op    = 0 tr kind args   a method is called: tr 1 = the try_ variant; kind = the command it sends
+                            0 add_known_peer p addr | 1 find_node seed t0..t31 | 2 put_record rk len expc qtag qn t
+                            | 3 put_record_to_peers rk len pub expc qtag qn upd npeers p*
+                            | 4 get_record rk qtag qn t | 5 get_providers rk t | 6 start_providing rk qtag qn t
+                            | 7 stop_providing rk t | 8 store_record rk len pub expc
+         | 1               the loop is polled: it takes every command in the channel, one per select! iteration
+         | 2               the task of a waiting async method runs
+         | 3               the user receives one event
+         | 4 rk wait t     `wait` ticks pass and the refresh future of key rk is taken (id from the shared counter)
+   trace = 4 (per op)  call: code q    0 Err, 1 Ok(()), 2 Ok(id q), 3 suspended in send().await
+                       poll: ntaken storedump        wake: 0 | 1 code q
+                       recv: 0 | 1 out               fire: q storedump
+   The node has an empty routing table: every operation ends in the drain that follows its command.
+   ================================================================================================ *)
+Definition HANDLE_TAG : N := 1000016.
+
+Inductive hgop := GCall (tr : bool) (b : hbody) | GPoll | GWake | GRecv | GFire (rk wait : N) (t : key).
+Record hcase := mkHC { hc_cap : N; hc_lkey : key; hc_ops : list hgop }.
+
+Definition hq_of (qtag qn : N) : hquorum :=
+  match qtag with 0 => HAll | 1 => HOne | _ => HN (N.succ_pos (qn - 1)) end.
+
+Definition p_hbody : parser hbody :=
+  let* kind := pN in
+  match kind with
+  | 0 => let* p := pN in let* a := pBool in pret (BAddKnownPeer p a)
+  | 1 => let* _ := pN in let* t := p_key in pret (BFindNode t)
+  | 2 => let* rk := pN in let* len := pN in let* ec := pN in let* qtag := pN in let* qn := pN in let* t := p_key in
+         pret (BPutRecord rk len (dec_exp ec) t (hq_of qtag qn))
+  | 3 => let* rk := pN in let* len := pN in let* pb := pN in let* ec := pN in let* qtag := pN in let* qn := pN in
+         let* upd := pBool in let* ps := plist pN in
+         pret (BPutRecordToPeers rk len pb (dec_exp ec) (hq_of qtag qn) ps upd)
+  | 4 => let* rk := pN in let* qtag := pN in let* qn := pN in let* t := p_key in pret (BGetRecord rk t (hq_of qtag qn))
+  | 5 => let* rk := pN in let* t := p_key in pret (BGetProviders rk t)
+  | 6 => let* rk := pN in let* qtag := pN in let* qn := pN in let* t := p_key in pret (BStartProviding rk t (hq_of qtag qn))
+  | 7 => let* rk := pN in let* t := p_key in pret (BStopProviding rk t)
+  | 8 => let* rk := pN in let* len := pN in let* pb := pN in let* ec := pN in pret (BStoreRecord rk len pb (dec_exp ec))
+  | _ => pfail
+  end.
+
+Definition p_hgop : parser hgop :=
+  let* tag := pN in
+  match tag with
+  | 0 => let* tr := pBool in let* b := p_hbody in pret (GCall tr b)
+  | 1 => pret GPoll
+  | 2 => pret GWake
+  | 3 => pret GRecv
+  | 4 => let* rk := pN in let* wt := pN in let* t := p_key in pret (GFire rk wt t)
+  | _ => pfail
+  end.
+
+Definition decode_hcase (l : list N) : option hcase :=
+  match l with
+  | tag :: r => if tag =? HANDLE_TAG
+                then pall (let* cap := pN in let* lk := p_key in let* ops := plist p_hgop in pret (mkHC cap lk ops)) r
+                else None
+  | [] => None
+  end.
+
+Definition HLOCAL : N := 99.
+Definition hwc (k : hcase) : wcfg :=
+  mkWC (mkG 20 V.gen.Consts.PARALLELISM_FACTOR HLOCAL BIG) [(HLOCAL, hc_lkey k)] [] 20
+       (V.C17.Model.mkCfg C_MAX_RECORDS C_MAX_RECORD_SIZE
+                          V.gen.Consts.DEFAULT_MAX_PROVIDER_KEYS V.gen.Consts.DEFAULT_MAX_PROVIDER_ADDRESSES
+                          V.gen.Consts.DEFAULT_MAX_PROVIDERS_PER_KEY C_PROVIDER_TTL)
+       C_RECORD_TTL true true C_REFRESH 0.
+
+(* the drain loop: serve the queries that have an action until none has *)
+Fixpoint drain (fuel : nat) (wc : wcfg) (w : world) : world * list out :=
+  match fuel with
+  | O => (w, [])
+  | S f =>
+      match find (fun x : N * qstate => has_action (now (w_st w)) (snd x)) (eng (w_st w)) with
+      | Some x =>
+          let '(w1, o, _) := cstep wc w (UEv (EServe (fst x))) in
+          let '(w2, o2) := drain f wc w1 in (w2, o ++ o2)
+      | None => (w, [])
+      end
+  end.
+
+Definition do_event (wc : wcfg) (w : world) (u : uev) : world * list out :=
+  let '(w1, o, _) := cstep wc w u in
+  let '(w2, o2) := drain 64 wc w1 in (w2, o ++ o2).
+
+(* the loop runs until it waits: every command in the channel, in order *)
+Fixpoint take_all (fuel : nat) (wc : wcfg) (h : hstate) (w : world) : hstate * world * list out * N :=
+  match fuel with
+  | O => (h, w, [], 0)
+  | S f =>
+      match hrecv h with
+      | (h1, Some c) =>
+          let '(w1, o) := do_event wc w (h2u c) in
+          let '(h2, w2, o2, n) := take_all f wc h1 w1 in (h2, w2, o ++ o2, n + 1)
+      | (_, None) => (h, w, [], 0)
+      end
+  end.
+
+Definition enc_hres (r : hres) : list N :=
+  match r with
+  | RErr => [0; 0]
+  | ROk None => [1; 0]
+  | ROk (Some q) => [2; q]
+  | RWait _ => [3; 0]
+  end.
+
+Fixpoint hrun_trace (wc : wcfg) (h : hstate) (w : world) (evq : list out) (ops : list hgop) : list N :=
+  match ops with
+  | [] => []
+  | GCall tr b :: t =>
+      if method_exists tr (body_kind b)
+      then let '(h1, r) := hcall h tr b in enc_hres r ++ hrun_trace wc h1 w evq t
+      else [9]
+  | GPoll :: t =>
+      let '(h1, w1, o, n) := take_all 64 wc h w in
+      n :: dump_store wc w1 ++ hrun_trace wc h1 w1 (evq ++ filter is_event o) t
+  | GWake :: t =>
+      let '(h1, moved) := hwake h in
+      (if moved
+       then 1 :: enc_hres (ROk (match h_park h with Some c => cmd_id c | None => None end))
+       else [0]) ++ hrun_trace wc h1 w evq t
+  | GRecv :: t =>
+      match evq with
+      | [] => 0 :: hrun_trace wc h w evq t
+      | o :: r => 1 :: enc_out o ++ hrun_trace wc h w r t
+      end
+  | GFire rk wt tg :: t =>
+      (* OFire: the store branch yields RefreshProvider (the key is still provided); the id is the counter's *)
+      match fire1 wc (age (w_ks w) wt) rk (lrank wc tg) with
+      | Some (_, Some _) =>
+          let q := h_next h in
+          let h1 := mkH (q + 1) (h_chan h) (h_cap h) (h_closed h) (h_park h) in
+          let '(w1, o) := do_event wc w (UFire q rk wt tg) in
+          q :: dump_store wc w1 ++ hrun_trace wc h1 w1 (evq ++ filter is_event o) t
+      | _ => [8]
+      end
+  end.
+
+Definition run_hcase (k : hcase) : list N :=
+  let wc := hwc k in
+  4 :: hrun_trace wc (h0 (N.to_nat (hc_cap k))) (w0 wc [] 256) [] (hc_ops k).
+
+(* ---- the oracle of the handle stream, on the trace alone ---- *)
+(* per op: what the trace says *)
+Inductive hobs :=
+| HOCall (code q : N) | HOPoll (n : N) | HOWake (moved : bool) (code q : N) | HORecv (o : option out) | HOFire (q : N).
+
+Definition p_store_dump : parser unit :=
+  let* _ := plist p_five in
+  let* _ := plist (let* _ := pN in let* _ := plist p_four in pret tt) in
+  let* _ := plist p_pair in let* _ := pN in pret tt.
+
+Fixpoint p_hobs (ops : list hgop) : parser (list hobs) :=
+  match ops with
+  | [] => pret []
+  | GCall _ _ :: t => let* c := pN in let* q := pN in let* r := p_hobs t in pret (HOCall c q :: r)
+  | GPoll :: t => let* n := pN in let* _ := p_store_dump in let* r := p_hobs t in pret (HOPoll n :: r)
+  | GWake :: t =>
+      let* m := pBool in
+      if m then let* c := pN in let* q := pN in let* r := p_hobs t in pret (HOWake true c q :: r)
+      else let* r := p_hobs t in pret (HOWake false 0 0 :: r)
+  | GRecv :: t =>
+      let* f := pBool in
+      if f then let* o := p_out in let* r := p_hobs t in pret (HORecv (Some o) :: r)
+      else let* r := p_hobs t in pret (HORecv None :: r)
+  | GFire _ _ _ :: t => let* q := pN in let* _ := p_store_dump in let* r := p_hobs t in pret (HOFire q :: r)
+  end.
+
+(* the ids the user was given (Ok(id), at once or when the waiting method completed) and the ids of refreshes *)
+Definition given_ids (l : list hobs) : list N :=
+  flat_map (fun x => match x with
+                     | HOCall 2 q => [q]
+                     | HOWake true 2 q => [q]
+                     | HOFire q => [q]
+                     | _ => []
+                     end) l.
+Definition received (l : list hobs) : list out :=
+  flat_map (fun x => match x with HORecv (Some o) => [o] | _ => [] end) l.
+
+(* the case ends drained: the last three ops are poll (nothing taken), wake (nobody waits), recv (nothing) *)
+Fixpoint ends_drained (l : list hobs) : bool :=
+  match l with
+  | [HOPoll 0; HOWake false _ _; HORecv None] => true
+  | _ :: t => ends_drained t
+  | [] => false
+  end.
+
+Definition prop_ok_h (k : hcase) (t : list N) : bool :=
+  match t with
+  | 4 :: r =>
+      match pall (p_hobs (hc_ops k)) r with
+      | Some obs =>
+          let ids := given_ids obs in
+          let outs := received obs in
+          (* never two terminal events for one id, none for an id nobody was given: in particular none for the
+             id a failed try_ method burnt *)
+          forallb (fun q => Nat.leb (count_terms q outs) 1) ids &&
+          forallb (fun o => match term_of o with Some q => nmem q ids | None => true end) outs &&
+          (* once everything is drained, every operation the user was given an id for has reported *)
+          (if ends_drained obs then forallb (fun q => Nat.eqb (count_terms q outs) 1) ids else true)
+      | None => false
+      end
+  | _ => false
+  end.
+
+Definition prop_ok1 (c t : list N) : bool :=
   match decode_case c with
   | Some k =>
       if negb (match k_keys k with [] => true | _ => false end)
@@ -791,5 +998,17 @@ Definition prop_ok (c t : list N) : bool :=
       else match decode_trace_b t with Some grs => prop_ok_b k grs | None => false end
   | None => true
   end.
+
+Definition is_hcase (l : list N) : bool := match l with tag :: _ => tag =? HANDLE_TAG | [] => false end.
+
+Definition run_case (l : list N) : list N :=
+  if is_hcase l
+  then match decode_hcase l with Some k => run_hcase k | None => [0] end
+  else run_case1 l.
+
+Definition prop_ok (c t : list N) : bool :=
+  if is_hcase c
+  then match decode_hcase c with Some k => prop_ok_h k t | None => true end
+  else prop_ok1 c t.
 
 Definition known_class (c t : list N) : N := 0.
